@@ -25,6 +25,9 @@ type IncPlan struct {
 	FailWriteAt int      `json:"fail_write_at"` // the n-th Write call (1-based) fails and breaks the connection; 0 = never
 	FailReadAt  int      `json:"fail_read_at"`  // after n inbound messages were read the connection breaks; 0 = never
 	Inbound     []string `json:"inbound"`       // messages the peer sends ("ping" = control ping)
+	// CloseError: closing this connection tears it down but reports an error (a half-broken socket): Close of the reconnectable
+	// transport must be final all the same
+	CloseError bool `json:"close_error,omitempty"`
 }
 
 type Case struct {
@@ -168,6 +171,9 @@ func (t *fakeTr) CloseWithStatus(transport.CloseStatus) error {
 	t.closed = true
 	t.cond.Broadcast()
 	t.mu.Unlock()
+	if t.plan.CloseError {
+		return errors.New("fake: close reports an error (connection was half-broken)")
+	}
 	return nil
 }
 func (t *fakeTr) RxBytesCounterValue() uint64                         { return 0 }
@@ -357,6 +363,16 @@ func run(c Case, k *ev.Case) *ev.Failure {
 	if lateW == nil {
 		return ev.Failf("C18.6 write-after-close", "Write after Close returned nil")
 	}
+	w.mu.Lock()
+	dialsAtClose := len(w.dials)
+	w.mu.Unlock()
+	time.Sleep(5 * time.Millisecond)
+	w.mu.Lock()
+	dialsLater := len(w.dials)
+	w.mu.Unlock()
+	if dialsLater > dialsAtClose {
+		return ev.Failf("C18.6 redial-after-close", "the transport dialled again after Close had returned (%d -> %d dial attempts)", dialsAtClose, dialsLater)
+	}
 	if lateR == nil {
 		return ev.Failf("C18.6 read-after-close", "Read after Close returned nil")
 	}
@@ -545,6 +561,7 @@ func gen(t *rapid.T) Case {
 				p.Inbound = append(p.Inbound, fmt.Sprintf("in-%d-%d", i, j))
 			}
 		}
+		p.CloseError = rapid.IntRange(0, 3).Draw(t, "closeerr") == 0
 		c.Incs = append(c.Incs, p)
 	}
 	if !c.Exhaust {
